@@ -3,6 +3,7 @@
 -/
 import Yld.Model.Api
 import Yld.Proofs.Program
+import Yld.Proofs.PyCorrect
 namespace Yld.C05
 
 /-- The caller's alternatives are untouched: whatever happens inside a predicate, the signal
@@ -68,5 +69,14 @@ example (q : Q) (env : Env) (n : Nat) :
     (comp (.conj (.call "a" []) (.conj .cut (.call "b" []))) [] n).1
       = [.foreach "a" [] [.foreach "b" [] [.yieldF], .ret]] := by
   simp [comp]
+
+/-- … and of the printed Python: `!` is a `return` statement inside the loops of the goals before
+    it; under the Python semantics the text printed for any body (cuts anywhere a cut may stand)
+    calls the consumer exactly as the reference semantics does, and a `return` leaves the whole
+    function (`Ctl.ret` ↔ the reference's `ret`). -/
+theorem cut_laws_transfer_to_printed_python (q : Q) (u : Term → Term → Gen) (hq : ∀ n a, FrameLocal (q n a))
+    (hp : Parametric q) (b : Body) (hb : BOK [] b) (n : Nat) (k : K) (hk : External k) (σ : PyLoc) (hσ : Inv [] σ.2) (w : World) :
+    SimB [] σ.1 (pyStmts q u (stmtsOfCode 0 (comp b [] n).1) k σ w) (solve q σ.1 0 b k w) :=
+  py_body_correct q u hq hp b hb n k hk σ hσ w
 
 end Yld.C05
